@@ -553,6 +553,13 @@ VERB_CATALOGUE = [  # (fragment, reference spelling); every fragment is atomic (
 ]
 
 
+def big_programs(rng, **kw):
+    """Generator settings for models well past any small-size shortcut: up to 45 equations over up to 80 names."""
+    args = dict(names=NAME_POOL + [f'v{i}' for i in range(60)] + [f'Q{i}_x' for i in range(20)], max_depth=2, max_eqs=45, max_names=80)
+    args.update(kw)
+    return RandomPrograms(rng, **args)
+
+
 class RandomPrograms:
     def __init__(self, rng, *, names=None, max_depth=4, max_eqs=6, max_names=10, offsets=(-3, -2, -1, 0, 0, 0, 1, 2),
                  allow=('num', 'neg', 'bin', 'paren', 'call1', 'call2', 'cmp', 'ifexp', 'bool', 'verb', 'named', 'block'),
